@@ -223,7 +223,8 @@ fn reps(t: &Ty, d: &Defs, consts: &BTreeSet<i128>, cap: usize) -> Option<Vec<Val
             }
             out
         }
-        Ty::Array(..) => return None,
+        // (arrays cannot be inspected by patterns: one representative per element value)
+        Ty::Array(et, n) => reps(et, d, &BTreeSet::new(), 4)?.into_iter().take(2).map(|v| Val::Array(vec![v; *n])).collect(),
     })
 }
 
@@ -273,8 +274,21 @@ impl G<'_> {
         match self.rng.weighted(&[5, 3, 2, 3]) {
             0 => self.leaf_ty(),
             1 => {
+                // (a component is sometimes an array: it cannot be matched on, only bound or ignored,
+                // but the columns after it still have to be checked)
                 let n = 2 + self.rng.usize_below(2);
-                Ty::Tuple((0..n).map(|_| self.gen_ty(depth - 1)).collect())
+                Ty::Tuple(
+                    (0..n)
+                        .map(|_| {
+                            if self.rng.chance(1, 6) {
+                                let n = 1 + self.rng.usize_below(2);
+                                Ty::Array(Box::new(self.leaf_ty()), n)
+                            } else {
+                                self.gen_ty(depth - 1)
+                            }
+                        })
+                        .collect(),
+                )
             }
             2 => {
                 let nf = 1 + self.rng.usize_below(3);
@@ -319,6 +333,9 @@ impl G<'_> {
     }
 
     fn gen_pat(&mut self, t: &Ty, depth: u32) -> P {
+        if matches!(t, Ty::Array(..)) {
+            return P::Wild;
+        }
         let w_wild = if depth == 0 { 3 } else { 2 };
         match self.rng.weighted(&[w_wild, 2, 8]) {
             0 => return P::Wild,
